@@ -1,4 +1,5 @@
 import Rcgen.Proofs.CsrDecode
+import Rcgen.Proofs.CsrRoundTrip
 /-
   C07 — a CSR says exactly what its parameters say, or is refused.
   This file: the refusal decision logic, the shape of the request, and
@@ -143,6 +144,76 @@ theorem issued_csr_decodes_to_request (i : Spec.CsrInputs) (vals : Attribute →
       · cases h
       · rename_i hnp
         exact csr_decodes_to_request i vals hv (by simpa using hnp) hc hsize
+
+/-- **parsing a generated request back returns what it was generated from** (the round-trip
+    clause).  For every parameter set without custom extensions (the parser documents those as
+    unsupported), every list of caller attributes other than an extension request, every key,
+    signature and third-party verifier: whatever `CertificateSigningRequestParams::from_der`
+    returns for the generated request has the generating subject name, the key usages as a set
+    (in declaration order), the subject alternative names, exactly the standard purposes among
+    the requested extended key usages, and the requester's public key with its algorithm.
+    Alternative names are values of the validated types (IP addresses of 4 or 16 octets,
+    otherName text valid UTF-8). -/
+theorem csr_round_trip (p521 crypto : Bool) (verify : Bytes → Bytes → Bytes → Bytes → Bool)
+    (i : Spec.CsrInputs) (vals : Attribute → Asn1) (sig : Bytes) (r : CsrParsed)
+    (hv : ValuesAreDer i.attrs vals)
+    (hnp : csrPanics i.p i.attrs = false)
+    (hne : ∀ a ∈ i.attrs, a.oid ≠ extensionRequestOid)
+    (hcustom : i.p.customExts = [])
+    (hip : ∀ o, SanType.ip o ∈ i.p.sans → o.length = 4 ∨ o.length = 16)
+    (hother : ∀ oid v, SanType.otherName oid v ∈ i.p.sans → Spec.utf8Valid v = true)
+    (hsize : (encode (Proofs.Canon.Csr.signedCsr i sig)).length < 256 ^ 126)
+    (h : parseCsr p521 crypto verify (encode (Proofs.Canon.Csr.signedCsr i sig)) = .ok r) :
+    Spec.reqName r.params.dn.iter = Spec.reqName i.p.dn.iter ∧
+    r.params.keyUsages = KeyUsage.all.filter (fun k => i.p.keyUsages.contains k) ∧
+    r.params.sans = i.p.sans ∧
+    (∀ e, e ∈ r.params.ekus ↔ (e ∈ stdEkus ∧ ∃ x ∈ i.p.ekus, Spec.rfcEkuOid x = e.oid)) ∧
+    r.key = i.subject := by
+  obtain ⟨h1, h2, h3, h4, h5⟩ :=
+    Proofs.CsrRoundTrip.parse_of_generated p521 crypto verify i vals sig r hv hnp hne hcustom hsize h
+  refine ⟨h1, h2, ?_, h4, h5⟩
+  rw [Proofs.ImportDecode.importSans_req i.p.sans hip hother] at h3
+  injection h3 with h3
+  exact h3.symm
+
+/-- the same request is what `serialize_request_with_attributes` returns: the signed tree of
+    C01 around the certificationRequestInfo -/
+theorem serialized_request_is_signedCsr (i : Spec.CsrInputs) (sign : Signer) (t : Asn1)
+    (h : serializeRequest i.p i.subject i.attrs sign = .ok t) :
+    ∃ sig, t = Proofs.Canon.Csr.signedCsr i sig ∧
+      sign (encode (csrInfo i.p i.subject i.attrs)) = .ok sig := by
+  unfold serializeRequest at h
+  split at h
+  · cases h
+  · cases hinv : csrInvalid i.p i.attrs with
+    | some e => simp [hinv] at h
+    | none =>
+      simp only [hinv] at h
+      split at h
+      · cases h
+      · unfold signDer at h
+        cases hs : sign (encode (csrInfo i.p i.subject i.attrs)) with
+        | error e => simp [hs] at h
+        | ok sig =>
+          simp only [hs] at h
+          exact ⟨sig, by cases h; rfl, rfl⟩
+
+/-! non-vacuity of `csr_round_trip`: a request with a name, a SAN, repeated key usages and two
+    extended key usages parses back (the hypothesis `h` is satisfiable) -/
+def exRt : Spec.CsrInputs :=
+  { p := { (default : CertParams) with
+           sans := [.dns [0x61], .ip [10, 0, 0, 1]],
+           keyUsages := [.keyEncipherment, .digitalSignature, .keyEncipherment],
+           ekus := [.clientAuth, .serverAuth],
+           dn := ((DistinguishedName.new.push .org (.printable [0x4f])).push .commonName (.utf8 [0x61])) },
+    subject := ⟨.ed25519, List.replicate 32 7⟩, attrs := [] }
+
+example : (match parseCsr false true (fun _ _ _ _ => true)
+      (encode (Proofs.Canon.Csr.signedCsr exRt (List.replicate 64 9))) with
+    | .ok r => r.params.keyUsages == [.digitalSignature, .keyEncipherment] &&
+        r.params.ekus == [.serverAuth, .clientAuth] && r.key == exRt.subject &&
+        r.params.sans == exRt.p.sans
+    | .error _ => false) = true := by decide +kernel
 
 /-! non-vacuity of `csr_decodes_to_request`: two caller attributes given out of sorted order
     (one of them twice), a SAN, a repeated key usage and a custom extension -/
